@@ -71,8 +71,13 @@ func (e *Engine) allocTypes(fn *ssa.Function) allocSet {
 					}
 				case *ssa.Defer:
 					if x.Call.IsInvoke() {
-						unknown = true
-						return
+						// deferred interface method: same candidates as for a direct interface call
+						for _, cand := range e.funcs {
+							if cand.Name() == x.Call.Method.Name() && cand.Signature.Recv() != nil {
+								walk(cand)
+							}
+						}
+						continue
 					}
 					if cal := x.Call.StaticCallee(); cal != nil {
 						walk(cal)
